@@ -1,0 +1,14 @@
+//go:build verif
+
+package wallet
+
+// Verification hook (build tag "verif" only; add-only, no existing line changed).
+//
+// The package has no exported way to build a KeyStore from chosen entropy: the only producer of a
+// KeyStore is KeyFile.Decrypt. The wallet property check (C19) needs one to create key files from
+// generated entropies.
+
+// VerifKeyStoreFromEntropy is keyStoreFromEntropy.
+func VerifKeyStoreFromEntropy(entropy []byte) (*KeyStore, error) {
+	return keyStoreFromEntropy(entropy)
+}
